@@ -32,7 +32,7 @@ histories — which the suite samples at one or two book examples to 2–3 decim
 * **every size** — chain theorems are inductions over the list of joints or links, not n = 3 and 6;
 * **branch completeness** — the planner's six-test separating-axis routine is proved *equivalent* to geometric
   intersection, so a dropped or mis-indexed branch is a failed proof, not a lucky sample;
-* **every subscript** — 408 index-bound theorems (306 inside the kernels, 102 at the call sites that slice arrays into them), regenerated from the source on every run.
+* **every subscript** — 568 index-bound theorems (306 inside the kernels, 160 where a kernel hands an array to another kernel, 102 at the call sites of the arm / platform / transform layers), regenerated from the source on every run.
 
 Method. Each property is stated as Lean 4 theorems about an **executable model** of the anchored code. A model is written
 once, *generically over a scalar type* (`class Scalar α`: `+ − × ÷`, `<`, `≤`, `sin cos tan sqrt acos atan2 floor`,
@@ -82,7 +82,7 @@ identities of the recursive dynamics (part of C08), the derivative clause of C06
     BR/LinAlg.lean           # V3 M3 V6 M6(blocks) T4 as structures                           (import-free)
     BR/Model/*.lean          # MR MRRef Tm Screw Helpers Comms RRT Heap HeapOps Arm ArmStatics IK Urdf Dyn SP SPCarry Disp   (import-free)
     BR/Gen/C15.lean          # REGENERATED every run (T-trace of RRTStar.obstruction)
-    BR/Gen/C17.lean          # REGENERATED every run (T-index: 408 index-bound theorems)
+    BR/Gen/C17.lean          # REGENERATED every run (T-index: 568 index-bound theorems)
     BR/Driver.lean           # line protocol over the executable instances -> `brdriver`
     BR/Real.lean             # instance Scalar ℝ, bridge simp lemmas
     BR/Lemmas/*.lean         # SegBox Rot SO3 TmLemmas M3Ring SE3 Chain (single Mathlib modules imported)
@@ -297,7 +297,7 @@ def section5():
             m = importlib.import_module(pid.lower())
             th = list(m.THEOREMS)
             if pid == 'C17':
-                out.append('**Theorems.** generated: `BR.Gen.C17.<Kernel>_<k>`, one per subscript and per resolved call-site slice (408 on the current tree), all audited.\n')
+                out.append('**Theorems.** generated: `BR.Gen.C17.<Kernel>_<k>`, one per subscript, per kernel-to-kernel argument and per resolved call-site slice (568 on the current tree), all audited.\n')
             else:
                 out.append('**Theorems (audited).** ' + ', '.join('`%s`' % t for t in th) + '\n')
             out.append('**Tie.** ' + getattr(m, 'TIE', '') + '\n')
@@ -356,6 +356,13 @@ def section8():
         'C13c': 'generated documents include one-sided joints: a limit bound written as exactly zero (30%)',
         'C14c': 'two-pose helpers get operand pairs in the special placements their branches key on (same pose, same position, one directly above / below the other, pure translations, collinear) besides generic pairs',
         'C17c': 'the bounds-checked worker no longer dies when a set-up step between recorded calls raises: the failure is reported (IndexError = violation) instead of an infrastructure error; the generated index theorem MatrixLog3_20 also stopped checking',
+        'C02d': 'SimulateControl is called with a controller model that differs from the robot in gravity, link frames AND link inertias (the inertia lists had been the same object)',
+        'C05d': 'a quarter of the IK operations of a history aim at a goal 30..60 beyond reach, so that every attempt of either solver fails and the state after a failed solve is examined',
+        'C06d': 'the wrench-recovery clause is also evaluated next to (not at) a singularity: one joint is walked towards rank loss until cond(J) lies in (1.5e3, 8e3)',
+        'C08d': 'Arm-level dynamics get structured tip wrenches (none, dense, pure moment, pure force, one basis wrench) instead of always zero',
+        'C17d': 'the translator now also generates a theorem for every argument a kernel hands to another kernel (extent at least what the callee documents; 160 more theorems), and the shared generator restarts both IK kernels at their own solution so that both halves of the start test are evaluated under bounds checking',
+        'C18d': 'unitSphere is run for every grid size k = 1..45 (n = k*k covers all counts up to 2000) and fiboSphere for every count up to 64 plus a spread',
+        'C19d': 'message palette includes a falsy message (0; an empty datagram on the UDP hops): a message that is falsy in Python is still a message',
         'C11': 'small platforms placed up to 12 from the origin so that cond(invJ) reaches 1e3..1e4 (the upper part of the property\'s range)',
     }
     for d in sorted(glob.glob(os.path.join(V, 'seeded', '*', 'meta.json'))):
